@@ -2,7 +2,9 @@
 //! vh — verification harness: generates cases, runs the real engeom code, prints one line per
 //! case:  op | inputs for the Lean model | implementation result | oracle verdict
 mod util;
+mod c01;
 mod c12;
+mod curves;
 mod c14;
 mod c16;
 mod c17;
@@ -23,6 +25,7 @@ fn main() {
     std::panic::set_hook(Box::new(|_| {}));
     let mut rng = Rng::new(seed ^ (prop.bytes().fold(0u64, |a, b| a.wrapping_mul(131).wrapping_add(b as u64))));
     match prop {
+        "C01" => c01::run(&mut rng, n),
         "C12" => {
             let slice = (seed % 1000) as usize;
             let thorough = args.iter().any(|a| a == "--thorough");
